@@ -30,6 +30,8 @@ func main() {
 		concMain(os.Args[2:])
 	case "block":
 		blockMain(os.Args[2:])
+	case "blockstress":
+		blockstressMain(os.Args[2:])
 	case "gcstress":
 		gcstressMain(os.Args[2:])
 	default:
